@@ -309,8 +309,9 @@ def minmax_stream(ctx, dts):
             continue
         did = len(U.ops(new)) == 1
         fired[k] += did
-        nan_hosts += has_nan
-        nan_fired += has_nan and did
+        if k in ("MaxMinClip", "MinMaxClip"):       # Min(Min) / Max(Max) with a NaN constant are sound (C05_xval_minmax) and stay fused
+            nan_hosts += has_nan
+            nan_fired += has_nan and did
         if did and (yn is None or not base.same_outputs([yh], [yn])):
             cls = "nan-bound" if has_nan else f"{k}:special-values-differ"
             ctx.violation(f"C05:minmax:{cls}", f"{k} constants {cs} {ds} {dt}: rewritten model differs from the original on onnxruntime",
@@ -336,7 +337,7 @@ def minmax_stream(ctx, dts):
                 ctx.tie_broken("correspondence", f"{FAM}:minmax", f"{dt} {meta[dt][off + i]}: onnxruntime(host / rewritten) differs from XVal.mm_lhs / mm_rhs")
     ctx.obligation("correspondence xval min/max rules: onnxruntime(host) = XVal.mm_lhs, onnxruntime(rewritten) = XVal.mm_rhs on every point "
                    "(constants NaN / +-inf included)", nbad == 0, f"{ntot} points, {nbad} differ")
-    variant = "repaired: NaN constants declined" if nan_hosts and not nan_fired else f"as read: {nan_fired}/{nan_hosts} NaN-constant hosts fused"
+    variant = "repaired: Min/Max -> Clip declines NaN constants" if nan_hosts and not nan_fired else f"as read: {nan_fired}/{nan_hosts} Min/Max -> Clip hosts with a NaN constant fused"
     ctx.cover(xval_minmax_hosts=len(insts), xval_minmax_fired=dict(fired), xval_minmax_variant=variant)
     return fired
 
